@@ -7,6 +7,8 @@ import SpecsModel.Lemmas.Good
 import SpecsModel.Lemmas.MaskFacts
 import SpecsModel.Lemmas.AllocOcc
 import SpecsModel.Lemmas.EWorldAccept
+import SpecsModel.Lemmas.LazyQueue
+import SpecsModel.Lemmas.EntSpecFacts
 namespace SpecsModel
 open Alloc
 
@@ -35,6 +37,8 @@ theorem store?_setStore (w : World) (k k' : Nat) (m : Masked) :
     · simp [hlt]
     · simp [hlt, Array.getElem?_eq_none (Nat.le_of_not_lt hlt)]
   · simp [hk, Ne.symm hk]
+
+@[simp] theorem store?_destroy (w : World) (d : List Int) (k : Nat) : (w.destroy d).store? k = w.store? k := rfl
 
 theorem lt_size_of_store? {w : World} {k : Nat} {m : Masked} (h : w.store? k = some m) :
     k < w.stores.size := by
@@ -185,6 +189,430 @@ theorem inv_register {w : World} (h : WInv w) (k : Nat) : WInv (w.register k) :=
           · next heq => subst heq; simp [setStore]
           · simp only [setStore]; exact List.mem_append_left _ (h.inTable k' m' hk'')
   · exact h
+
+
+/-! ### Purge -/
+
+theorem deleteComponents_good (es : List Entity) : ∀ (ks : List Nat) (w : World),
+    (∀ k ms, w.store? k = some ms → ms.Good) →
+    ∃ w', w.deleteComponents es ks = .ok w' ∧ (∀ k ms, w'.store? k = some ms → ms.Good) ∧
+      w'.stores.size = w.stores.size := by
+  intro ks
+  induction ks with
+  | nil => intro w hg; exact ⟨w, rfl, hg, rfl⟩
+  | cons k ks ih =>
+    intro w hg
+    simp only [deleteComponents]
+    cases hk : w.store? k with
+    | none => simpa using ih w hg
+    | some m =>
+      obtain ⟨r, hr, hgr⟩ := Masked.good_dropAll es (hg k m hk) []
+      simp only [hr]
+      have hlt := lt_size_of_store? hk
+      obtain ⟨w', h1, h2, h3⟩ := ih ((w.setStore k r.st).destroy r.destroyed) (by
+        intro k' m' hk'
+        have : ((w.setStore k r.st).destroy r.destroyed).store? k' = if k' = k then some r.st else w.store? k' := by
+          have := store?_setStore w k k' r.st
+          rw [store?_destroy]; simpa [hlt] using this
+        rw [this] at hk'
+        split at hk'
+        · cases hk'; exact hgr
+        · exact hg k' m' hk')
+      exact ⟨w', h1, h2, by rw [h3]; simp [destroy, setStore]⟩
+
+/-- After a deletion has taken effect in the allocator (`a'`: the purged indices are no longer
+    occupied, nothing else changed), purging those entities re-establishes the invariant. -/
+theorem inv_purge {w : World} (h : WInv w) {a' : Alloc} {s' : EntSpec} (es : List Entity)
+    (hW : WR { w.ent with alloc := a' } s')
+    (hocc : ∀ j, a'.occ j = (w.ent.alloc.occ j && !(es.map (·.id)).contains j)) :
+    ∃ w', ({ w with ent := { w.ent with alloc := a' } } : World).deleteComponents es w.table = .ok w' ∧ WInv w' := by
+  obtain ⟨w', hdel, hgood, hsize⟩ :=
+    deleteComponents_good es w.table { w with ent := { w.ent with alloc := a' } } h.good
+  have hfr := LazyQ.deleteComponents_frame es _ _ _ hdel
+  refine ⟨w', hdel, ?_⟩
+  have hback : ∀ k ms', w'.store? k = some ms' →
+      ∃ ms, w.store? k = some ms ∧ (∀ j, ms'.mask.mem j = true → ms.mask.mem j = true) ∧
+        (∀ e ∈ es, ms'.mask.mem e.id = false) := by
+    intro k ms' hk'
+    cases hk : w.store? k with
+    | none =>
+      -- a storage cannot appear
+      exfalso
+      have key : ∀ (ks : List Nat) (w1 w2 : World), w1.deleteComponents es ks = .ok w2 →
+          w1.store? k = none → w2.store? k = none := by
+        intro ks
+        induction ks with
+        | nil => intro w1 w2 h1 h2; simp only [deleteComponents] at h1; cases h1; exact h2
+        | cons k0 ks ih =>
+          intro w1 w2 h1 h2
+          simp only [deleteComponents] at h1
+          split at h1
+          · exact ih _ _ h1 h2
+          · next m0 hm0 =>
+            split at h1
+            · next r hr =>
+              apply ih _ _ h1
+              have hlt0 := lt_size_of_store? hm0
+              have : ((w1.setStore k0 r.st).destroy r.destroyed).store? k = if k = k0 then some r.st else w1.store? k := by
+                have := store?_setStore w1 k0 k r.st
+                rw [store?_destroy]; simpa [hlt0] using this
+              rw [this]
+              split
+              · next heq => subst heq; rw [h2] at hm0; cases hm0
+              · exact h2
+            · cases h1
+            · cases h1
+      have := key w.table _ _ hdel (by simpa [store?] using hk)
+      rw [this] at hk'; cases hk'
+    | some ms =>
+      obtain ⟨m'', h1, h2, h3⟩ := LazyQ.deleteComponents_purged es w.table _ _ hdel k ms (by simpa [store?] using hk)
+      rw [h1] at hk'; cases hk'
+      exact ⟨ms, rfl, h2, h3 (h.inTable k ms hk)⟩
+  refine ⟨⟨s', by rw [hfr.ent]; exact hW⟩, by rw [hsize]; exact h.size, hgood, ?_, ?_, ?_⟩
+  · intro k ms' hk' i hi
+    obtain ⟨ms, hk, hsub, hclr⟩ := hback k ms' hk'
+    rw [hfr.ent]; simp only
+    rw [hocc i, h.owned k ms hk i (hsub i hi)]
+    simp only [Bool.true_and, Bool.not_eq_true', List.contains_eq_mem, decide_eq_false_iff_not,
+      List.mem_map, not_exists, not_and]
+    intro e he heq
+    have := hclr e he
+    rw [heq] at this; rw [this] at hi; cases hi
+  · intro k ms' hk'
+    obtain ⟨ms, hk, _, _⟩ := hback k ms' hk'
+    rw [hfr.table]; exact h.inTable k ms hk
+  · intro act hact e he
+    rw [hfr.queue] at hact; rw [hfr.ent]
+    exact h.queueOk act hact e he
+
+
+/-! ### Entity operations that do not delete -/
+
+end World
+
+def EntEv.nonDel : EntEv → Bool
+  | .created _ | .killAtomic _ _ | .isAlive _ _ | .join _ => true
+  | _ => false
+
+theorem EntSpec.step_nonDel_live {s s' : EntSpec} {ev : EntEv} (hn : ev.nonDel = true)
+    (h : s.step ev = .ok s') : ∀ x, x ∈ s.live → x ∈ s'.live := by
+  intro x hx
+  cases ev with
+  | created e =>
+    rcases EntSpec.step_facts h with ⟨e', he, _, _, hl, _⟩ | ⟨hnc, _⟩
+    · rw [hl]; exact List.mem_append_left _ hx
+    · exact absurd rfl (hnc e)
+  | killAtomic e ok =>
+    simp only [EntSpec.step] at h
+    split at h
+    · split at h
+      · cases h; exact hx
+      · cases h
+    · split at h
+      · cases h
+      · cases h; exact hx
+  | isAlive e r =>
+    simp only [EntSpec.step] at h
+    split at h
+    · cases h; exact hx
+    · cases h
+  | join es =>
+    simp only [EntSpec.step] at h
+    split at h
+    · cases h; exact hx
+    · cases h
+  | kill _ _ => simp [EntEv.nonDel] at hn
+  | merge => simp [EntEv.nonDel] at hn
+  | deleteAll => simp [EntEv.nonDel] at hn
+
+theorem EntSpec.run_nonDel_live : ∀ (evs : List EntEv) (s s' : EntSpec),
+    (∀ ev, ev ∈ evs → ev.nonDel = true) → s.run evs = .ok s' → ∀ x, x ∈ s.live → x ∈ s'.live := by
+  intro evs
+  induction evs with
+  | nil => intro s s' _ h x hx; simp only [EntSpec.run] at h; cases h; exact hx
+  | cons ev evs ih =>
+    intro s s' hn h x hx
+    simp only [EntSpec.run] at h
+    cases hs : s.step ev with
+    | error w => simp [hs] at h
+    | ok s1 =>
+      simp only [hs] at h
+      exact ih s1 s' (fun e he => hn e (by simp [he])) h x
+        (EntSpec.step_nonDel_live (hn ev (by simp)) hs x hx)
+
+/-- Entity ops that `World.step` forwards to the entity world unchanged. -/
+def EOp.plain : EOp → Bool
+  | .merge | .delAll | .delNow _ | .delBatch _ => false
+  | _ => true
+
+theorem entEvents_plain (log : Array Entity) (op : EOp) (r : ERes) (hp : op.plain = true) :
+    (∀ ev, ev ∈ (entEvents log op r).1 → ev.nonDel = true) ∧
+    (∀ e, e ∈ log.toList → e ∈ (entEvents log op r).2.toList) := by
+  have triv : (∀ ev, ev ∈ ([] : List EntEv) → ev.nonDel = true) ∧ (∀ e, e ∈ log.toList → e ∈ log.toList) :=
+    ⟨(fun ev hev => nomatch hev), fun e he => he⟩
+  cases op with
+  | merge => cases hp
+  | delAll => cases hp
+  | delNow _ => cases hp
+  | delBatch _ => cases hp
+  | createNow d =>
+    cases r with
+    | ent e =>
+      simp only [entEvents]
+      refine ⟨?_, fun x hx => by simp only [Array.toList_push, List.mem_append]; exact Or.inl hx⟩
+      intro ev hev
+      cases d <;> simp at hev
+      · subst hev; rfl
+      · rcases hev with rfl | rfl <;> rfl
+    | _ => exact triv
+  | createAtomic d =>
+    cases r with
+    | ent e =>
+      simp only [entEvents]
+      refine ⟨?_, fun x hx => by simp only [Array.toList_push, List.mem_append]; exact Or.inl hx⟩
+      intro ev hev
+      cases d <;> simp at hev
+      · subst hev; rfl
+      · rcases hev with rfl | rfl <;> rfl
+    | _ => exact triv
+  | createIterNow n =>
+    cases r with
+    | ents es =>
+      simp only [entEvents]
+      refine ⟨?_, fun x hx => by simp only [Array.toList_append, List.mem_append]; exact Or.inl hx⟩
+      intro ev hev
+      obtain ⟨x, _, rfl⟩ := List.mem_map.mp hev; rfl
+    | _ => exact triv
+  | createIterAtomic n =>
+    cases r with
+    | ents es =>
+      simp only [entEvents]
+      refine ⟨?_, fun x hx => by simp only [Array.toList_append, List.mem_append]; exact Or.inl hx⟩
+      intro ev hev
+      obtain ⟨x, _, rfl⟩ := List.mem_map.mp hev; rfl
+    | _ => exact triv
+  | delAtomic h =>
+    cases r with
+    | kill r' =>
+      simp only [entEvents]
+      cases resolve log h with
+      | none => exact triv
+      | some e =>
+        refine ⟨?_, fun x hx => hx⟩
+        intro ev hev; simp at hev; subst hev; rfl
+    | _ => exact triv
+  | alive h =>
+    cases r with
+    | bool b =>
+      simp only [entEvents]
+      cases resolve log h with
+      | none => exact triv
+      | some e =>
+        refine ⟨?_, fun x hx => hx⟩
+        intro ev hev; simp at hev; subst hev; rfl
+    | _ => exact triv
+  | walive h => cases r <;> exact triv
+  | ejoin =>
+    cases r with
+    | ents es =>
+      simp only [entEvents]
+      refine ⟨?_, fun x hx => hx⟩
+      intro ev hev; simp at hev; subst hev; rfl
+    | _ => exact triv
+
+namespace World
+
+theorem occ_mono {ew ew' : EWorld} {s s' : EntSpec} (h : WR ew s) (h' : WR ew' s')
+    (hl : ∀ x, x ∈ s.live → x ∈ s'.live) : ∀ j, ew.alloc.occ j = true → ew'.alloc.occ j = true := by
+  intro j hj
+  have := hl _ (h.r.live_of_occ j hj)
+  exact (h'.r.occ_of_live _ this).1
+
+/-- Replacing the entity world by a later one in which nothing died and the log only grew. -/
+theorem inv_ent {w : World} (h : WInv w) {ew' : EWorld} {s s' : EntSpec} (hs : WR w.ent s) (hs' : WR ew' s')
+    (hl : ∀ x, x ∈ s.live → x ∈ s'.live) (hlog : ∀ e, e ∈ w.ent.log.toList → e ∈ ew'.log.toList) :
+    WInv { w with ent := ew' } :=
+  ⟨⟨s', hs'⟩, h.size, h.good,
+    fun k ms hk i hi => occ_mono hs hs' hl i (h.owned k ms hk i hi),
+    h.inTable, fun act ha e he => hlog e (h.queueOk act ha e he)⟩
+
+theorem inv_estep {w : World} (h : WInv w) (op : EOp) (hp : op.plain = true) :
+    WInv { w with ent := (w.ent.step op).1 } := by
+  obtain ⟨s, hs⟩ := h.ent
+  obtain ⟨_, s', hrun, hlog, hW⟩ := step_accept hs op
+  obtain ⟨hnd, hmono⟩ := entEvents_plain w.ent.log op (w.ent.step op).2 hp
+  exact inv_ent h hs hW (EntSpec.run_nonDel_live _ s s' hnd hrun) (by rw [← hlog]; exact hmono)
+
+
+/-! ### Deletion -/
+
+theorem kill_seen {s s' : EntSpec} {es : List Entity} {r : KillRes}
+    (h : s.step (.kill es r) = .ok s') : s'.seen = s.seen := by
+  simp only [EntSpec.step] at h
+  split at h
+  · cases h; rfl
+  · cases h
+
+/-- `World::delete_entities` on logged handles. -/
+theorem inv_deleteEntities {w : World} (h : WInv w) (es : List Entity)
+    (hes : ∀ e, e ∈ es → e ∈ w.ent.log.toList) :
+    WInv (w.deleteEntities es).1 ∧ ∃ r, (w.deleteEntities es).2 = .e (.kill r) := by
+  obtain ⟨s, hs⟩ := h.ent
+  have hseen : ∀ e, e ∈ es → e ∈ s.seen := fun e he => hs.logSeen e (hes e he)
+  obtain ⟨a', r, s', hk, hstep, hR⟩ := kill_refine hs.r es hseen
+  obtain ⟨a'', r'', hk', hocc⟩ := kill_occ hs.r es hseen
+  rw [hk] at hk'; cases hk'
+  have hW : WR { w.ent with alloc := a' } s' :=
+    ⟨hR, by intro e he; rw [kill_seen hstep]; exact hs.logSeen e he⟩
+  simp only [deleteEntities, hk]
+  cases r with
+  | ok =>
+    obtain ⟨w', hdel, hinv⟩ := inv_purge h es hW (by intro j; rw [hocc j]; rfl)
+    simp only; rw [hdel]; exact ⟨hinv, .ok, rfl⟩
+  | err pos =>
+    obtain ⟨w', hdel, hinv⟩ := inv_purge h (es.take pos) hW (by intro j; rw [hocc j]; simp [killedIds])
+    simp only; rw [hdel]; exact ⟨hinv, .err pos, rfl⟩
+
+/-! ### Builders -/
+
+/-- `buildComps` inserts at the index of the (alive, logged) entity `e` only. -/
+theorem inv_buildComps : ∀ (comps : List (Nat × Int)) (w : World) (e : Entity), WInv w →
+    e ∈ w.ent.log.toList → (∀ kv, kv ∈ comps → (w.store? kv.1).isSome = true) →
+    (∃ w', w.buildComps e comps = .ok w' ∧ WInv w' ∧ w'.ent = w.ent) ∨
+    (∃ why, w.buildComps e comps = .panic why) := by
+  intro comps
+  induction comps with
+  | nil => intro w e h _ _; exact Or.inl ⟨w, rfl, h, rfl⟩
+  | cons kv comps ih =>
+    intro w e h he hreg
+    obtain ⟨k, v⟩ := kv
+    have hk := hreg (k, v) (by simp)
+    simp only [buildComps]
+    cases hst : w.store? k with
+    | none => simp [hst] at hk
+    | some m =>
+      simp only
+      obtain ⟨r, hr, hg⟩ := Masked.good_insert (h.good k m hst) w.ent.alloc e v
+      rw [hr]; simp only
+      have hinv1 : WInv ((w.setStore k r.st).destroy r.destroyed) := by
+        obtain ⟨s, hs⟩ := h.ent
+        refine inv_setStore h hst hg ?_ _
+        intro i hi
+        rw [Masked.insert_mask hr i] at hi
+        split at hi
+        · next hc => exact Or.inr (hc.1 ▸ alive_occ hs he hc.2)
+        · exact Or.inl hi
+      cases hv : r.val with
+      | wrongGen => exact Or.inr ⟨_, rfl⟩
+      | inserted =>
+        simp only
+        have hlt := lt_size_of_store? hst
+        rcases ih _ e hinv1 he (by
+          intro kv' hkv'
+          have := hreg kv' (by simp [hkv'])
+          rw [store?_destroy, store?_setStore]
+          split
+          · rfl
+          · exact this) with ⟨w', h1, h2, h3⟩ | ⟨why, h1⟩
+        · exact Or.inl ⟨w', h1, h2, h3⟩
+        · exact Or.inr ⟨why, h1⟩
+      | replaced old =>
+        simp only
+        rcases ih _ e hinv1 he (by
+          intro kv' hkv'
+          have := hreg kv' (by simp [hkv'])
+          rw [store?_destroy, store?_setStore]
+          split
+          · rfl
+          · exact this) with ⟨w', h1, h2, h3⟩ | ⟨why, h1⟩
+        · exact Or.inl ⟨w', h1, h2, h3⟩
+        · exact Or.inr ⟨why, h1⟩
+
+
+theorem inv_killAtomic {w : World} (h : WInv w) (e : Entity) (he : e ∈ w.ent.log.toList) :
+    ∃ a ok, w.ent.alloc.killAtomic e = .ok (a, ok) ∧ WInv { w with ent := { w.ent with alloc := a } } := by
+  obtain ⟨s, hs⟩ := h.ent
+  obtain ⟨a', ok, s', hk, hstep, hR, _, hseen⟩ := killAtomic_refine hs.r e (hs.logSeen e he)
+  refine ⟨a', ok, hk, ?_⟩
+  have hW : WR { w.ent with alloc := a' } s' := ⟨hR, by intro x hx; rw [hseen]; exact hs.logSeen x hx⟩
+  exact inv_ent h hs hW (EntSpec.step_nonDel_live rfl hstep) (fun x hx => hx)
+
+theorem inv_createWith {w : World} (h : WInv w) (atomic dropped : Bool) (comps : List (Nat × Int)) :
+    WInv (w.createWith atomic dropped comps).1 := by
+  unfold createWith
+  split
+  · exact h
+  · next hany =>
+    have hreg : ∀ kv, kv ∈ comps → (w.store? kv.1).isSome = true := by
+      intro kv hkv
+      cases hx : w.store? kv.1 with
+      | some _ => rfl
+      | none =>
+        exfalso; apply hany
+        simp only [List.any_eq_true]
+        exact ⟨kv, hkv, by simp [hx]⟩
+    obtain ⟨s, hs⟩ := h.ent
+    obtain ⟨e, s', hres, hrun, hlog, hW⟩ := create_accept hs atomic false
+    have hstepinv : WInv { w with ent := (if atomic = true then w.ent.createAtomic false else w.ent.createNow false).1 } := by
+      refine inv_ent h hs hW ?_ (by rw [hlog]; intro x hx; simp only [Array.toList_push, List.mem_append]; exact Or.inl hx)
+      apply EntSpec.run_nonDel_live _ s s' _ hrun
+      intro ev hev; simp at hev; subst hev; rfl
+    generalize hx : (if atomic = true then w.ent.createAtomic false else w.ent.createNow false) = x at *
+    obtain ⟨ew, r⟩ := x
+    simp only at hres hlog hstepinv
+    subst hres
+    simp only
+    have he : e ∈ ({ w with ent := ew } : World).ent.log.toList := by
+      simp only [hlog, Array.toList_push, List.mem_append, List.mem_singleton, or_true]
+    rcases inv_buildComps comps { w with ent := ew } e hstepinv he hreg with ⟨w2, hb, hinv2, hent2⟩ | ⟨why, hb⟩
+    · rw [hb]; simp only
+      cases dropped with
+      | false => exact hinv2
+      | true =>
+        simp only [if_true]
+        obtain ⟨a, ok, hk, hinv3⟩ := inv_killAtomic hinv2 e (by rw [hent2]; exact he)
+        rw [hk]
+        cases ok with
+        | true => exact hinv3
+        | false => exact hinv2
+    · rw [hb]; exact hstepinv
+
+theorem inv_lazyCreate {w : World} (h : WInv w) (comps : List (Nat × Int)) :
+    WInv (step 0 w (.lazyCreate comps)).1 ∧ ∀ f, step f w (.lazyCreate comps) = step 0 w (.lazyCreate comps) := by
+  refine ⟨?_, fun f => by cases f <;> rfl⟩
+  simp only [step]
+  split
+  · exact h
+  · obtain ⟨s, hs⟩ := h.ent
+    obtain ⟨e, s', hres, hrun, hlog, hW⟩ := create_accept hs true false
+    simp only [if_true] at hres hlog hW hrun
+    have hinv1 : WInv { w with ent := (w.ent.createAtomic false).1 } := by
+      refine inv_ent h hs hW ?_ (by rw [hlog]; intro x hx; simp only [Array.toList_push, List.mem_append]; exact Or.inl hx)
+      apply EntSpec.run_nonDel_live _ s s' _ hrun
+      intro ev hev; simp at hev; subst hev; rfl
+    generalize hx : w.ent.createAtomic false = x at *
+    obtain ⟨ew, r⟩ := x
+    simp only at hres hlog hinv1
+    subst hres
+    simp only
+    -- the fold only appends `.ins _ _ e _` actions
+    have key : ∀ (cs : List (Nat × Int)) (w1 : World), WInv w1 → e ∈ w1.ent.log.toList →
+        WInv (cs.foldl (fun (w : World) (kv : Nat × Int) =>
+          { w with queue := w.queue ++ [.ins w.nextTag kv.1 e kv.2], nextTag := w.nextTag + 1 }) w1) := by
+      intro cs
+      induction cs with
+      | nil => intro w1 h1 _; exact h1
+      | cons kv cs ih =>
+        intro w1 h1 he1
+        simp only [List.foldl_cons]
+        refine ih _ ?_ he1
+        refine ⟨h1.ent, h1.size, h1.good, h1.owned, h1.inTable, ?_⟩
+        intro act hact x hx
+        simp only [List.mem_append, List.mem_singleton] at hact
+        rcases hact with hact | rfl
+        · exact h1.queueOk act hact x hx
+        · simp only [LazyAct.ents, List.mem_singleton] at hx; subst hx; exact he1
+    exact key comps _ hinv1 (by simp only [hlog, Array.toList_push, List.mem_append, List.mem_singleton, or_true])
 
 end World
 end SpecsModel
